@@ -250,7 +250,7 @@ def rule_field_order(ctx):
         ctx.report("order:into:validate", ctx.where(ix.file, ix.node), "Into no longer validates each listed type against the (non-skipped) field count", {})
     its = A.TList(tx(x) for x in T.templates_both(ix))
     ctx.instance("into:template")
-    if not its or "(#(<#r#m#tysasderive_more::core::convert::From<_>>::from(#r#mvalue.#fields_idents)),*)" not in its[0]:
+    if not any("(#(<#r#m#tysasderive_more::core::convert::From<_>>::from(#r#mvalue.#fields_idents)),*)" in x_ for x_ in its):
         ctx.report("order:into:template", ctx.where(ix.file, ix.node), "Into's body is no longer one `<Ty as From<_>>::from(value.field)` per (type, field) pair in order", {})
     # Constructor
     ce = A.get_fn(ctx.files, CTOR, "expand")
